@@ -1,13 +1,13 @@
 (* C08 -- executable model of saving and re-reading data sets through pysparkling.fileio.
 
-   What is modelled (the repaired code, /repo after fix 5ff69da):
+   What is modelled (the repaired code, /repo after fixes 5ff69da and b3a17ea):
      rdd.py       saveAsTextFile / saveAsPickleFile   (single file for one partition, otherwise
                   <path>/part-NNNNN<codec suffix> per partition and <path>/_SUCCESS last)
      context.py   textFile / pickleFile / binaryFiles / binaryRecords / wholeTextFiles
                   (resolve -> sorted -> parallelize(names, max(#files, minPartitions)) -> per-file loader),
                   FixedLengthChunker / VariableLengthChunker
      fileio       File / TextFile load+dump (codec chosen from the file name on both paths, utf8 with
-                  errors='ignore', universal-newline translation when reading text),
+                  errors='ignore', newline='' when reading text: no translation of line endings),
                   codec/__init__.py get_codec over the regenerated FILE_ENDINGS table (Gen/Codecs.v),
                   fs/local.py resolve_filenames for wildcard-free expressions, exists, dump (overwrite)
    The compression codecs themselves (gzip, bz2, lzma, zipfile, tarfile) and pickle are Section
@@ -90,19 +90,6 @@ Fixpoint utf8_decode (b : bytes) : str :=
         | _ => utf8_decode r0
         end
       else utf8_decode r0
-  end.
-
-(* text-mode reading (io.open(..., 'r') / TextIOWrapper with newline=None): "\r\n" and "\r" become "\n" *)
-Fixpoint universal_newlines (s : str) : str :=
-  match s with
-  | [] => []
-  | c :: s' =>
-      if c =? 13 then
-        10 :: match s' with
-              | d :: s'' => if d =? 10 then universal_newlines s'' else universal_newlines s'
-              | [] => []
-              end
-      else c :: universal_newlines s'
   end.
 
 (* the characters at which str.splitlines() breaks: \n \v \f \r \x1c \x1d \x1e \x85     *)
@@ -214,9 +201,10 @@ Definition load_bytes (f : fs) (name : path) : res bytes :=
               | Some d => Ok d
               end
   end.
-(* TextFile.load(...).read() *)
+(* TextFile.load(...).read(): the stream is opened with newline='' (io.open / TextIOWrapper), so the
+   decoded text is returned as it is in the file, line endings included *)
 Definition load_text (f : fs) (name : path) : res str :=
-  res_map (fun b => universal_newlines (utf8_decode b)) (load_bytes f name).
+  res_map utf8_decode (load_bytes f name).
 
 (* ---------- Context.parallelize (kernels par_take / par_single regenerated from context.py) *)
 Fixpoint par_chain {A} (xs : list A) (len n : Z) (idx : list Z) : list (list A) :=
